@@ -356,7 +356,9 @@ async fn observe(node: &SimNode) -> Result<Obs, Fail> {
         let db_version: i64 = conn.query_row("SELECT crsql_db_version()", [], |r| r.get(0))?;
         Ok(Obs { db, cells, corro_schema, mem: BTreeMap::new(), db_version, other_objects })
     });
-    let mut o = r.map_err(|e| Fail::infra(format!("observe: {e}")))?;
+    // a connection opened for this observation alone cannot be stale: if it cannot read the tables or the change
+    // records, the database itself is damaged
+    let mut o = r.map_err(|e| Fail::new("database-stays-readable", format!("a fresh connection cannot read the database: {e}")))?;
     o.mem = mem;
     Ok(o)
 }
